@@ -53,7 +53,9 @@ COMPONENTS = {
     "real": ["typhon.files.fileset (write/__setitem__, read, collect, find, move, "
              "delete, map, get_filename, get_info)", "typhon.files.utils "
              "(compress/decompress)", "CSV and NetCDF4 handlers", "scratch tree"],
-    "stub": ["ThreadPoolExecutor/ProcessPoolExecutor (sim.executors)", "gc.collect"],
+    "stub": ["ThreadPoolExecutor/ProcessPoolExecutor (sim.executors)", "gc.collect",
+             "LocalFileSystem subclass that adds a scheduling point before each "
+             "isdir/isfile/makedirs/copy/move (the calls themselves are real)"],
 }
 DEFAULTS = {
     "quick": {"budget_s": 45, "chunk": 10, "per_run_wall": 180, "minimise_s": 90},
@@ -77,6 +79,7 @@ def setup():
     import pandas as pd
     _T.update(fsmod=fsmod, FileSet=FileSet, FileHandler=FileHandler,
               FileInfo=FileInfo, xr=xr, pd=pd)
+
 
 
 # ------------------------------------------------------- user (pickle) handler
@@ -116,6 +119,50 @@ def post_reader(file_info, data):
 
 def converter(data):
     return dict(data, converted=True)
+
+
+from fsspec.implementations.local import LocalFileSystem as _LocalFS
+
+
+if True:
+    class SimLocalFS(_LocalFS):
+        """The local file system with a scheduling point in front of every
+        call typhon makes: check-then-act sequences on the directory tree can
+        be interleaved by the simulator."""
+        cachable = False
+
+        def isdir(self, path):
+            _yield("fs.isdir")
+            return super().isdir(path)
+
+        def isfile(self, path):
+            _yield("fs.isfile")
+            return super().isfile(path)
+
+        def exists(self, path, **kw):
+            _yield("fs.exists")
+            return super().exists(path, **kw)
+
+        def makedirs(self, path, exist_ok=False):
+            _yield("fs.makedirs")
+            return super().makedirs(path, exist_ok=exist_ok)
+
+        def mkdir(self, path, create_parents=True, **kw):
+            _yield("fs.mkdir")
+            return super().mkdir(path, create_parents=create_parents, **kw)
+
+        def copy(self, path1, path2, **kw):
+            _yield("fs.copy")
+            return super().copy(path1, path2, **kw)
+
+        def move(self, path1, path2, **kw):
+            _yield("fs.move")
+            return super().move(path1, path2, **kw)
+
+        def mv(self, path1, path2, **kw):
+            _yield("fs.mv")
+            return super().mv(path1, path2, **kw)
+
 
 
 TEMPLATES = [
@@ -296,7 +343,7 @@ class Run:
         if w["worker_type"]:
             kw["worker_type"] = w["worker_type"]
         ms.obj = FileSet(ms.template, name=f"S{ms.idx}", time_coverage=ms.tcov,
-                         max_processes=3, max_threads=2, **kw)
+                         max_processes=3, max_threads=2, fs=SimLocalFS(), **kw)
         self.sets.append(ms)
         return ms
 
